@@ -159,7 +159,7 @@ BITCASK_ONLY = [
     "impl Reader::fn get",
     "fn rebuild_storage", "fn populate_keydir_with_hintfile", "fn populate_keydir_with_datafile",
     "impl Writer::fn merge", "impl Context::fn fileids_to_merge",
-    "struct Bitcask", "impl Bitcask::fn open", "impl Bitcask::fn get_handle", "impl Drop for Bitcask::fn drop", "impl Context::fn can_merge", "fn merge_on_interval", "fn sync_on_interval", "fn verif_blocking_merge", "fn verif_blocking_sync",
+    "struct Bitcask", "impl Bitcask::fn open", "impl Bitcask::fn get_handle", "impl Drop for Bitcask::fn drop", "impl Context::fn can_merge", "fn background_tasks", "fn merge_on_interval", "fn sync_on_interval", "fn verif_blocking_merge", "fn verif_blocking_sync",
     "impl KeyValueStorage for Handle::type Error", "impl KeyValueStorage for Handle::fn set", "impl KeyValueStorage for Handle::fn get", "impl KeyValueStorage for Handle::fn del",
     "struct Handle", "impl Handle::fn put", "impl Handle::fn delete", "impl Handle::fn get", "impl Handle::fn merge", "impl Handle::fn sync", "impl Handle::fn close",
 ]
@@ -425,12 +425,12 @@ UNITS["slots"] = {
         ("repo", "src/shutdown.rs", {"mod": "shutdown", "only": ["struct Shutdown", "impl Shutdown::fn new", "impl Shutdown::fn is_shutdown", "impl Shutdown::fn recv"]}),
         ("repo", "src/net/config.rs", {"mod": "config", "only": ["struct Config"]}),
         ("repo", "src/net/server.rs", {"mod": "server", "rules": (make_seq_rule("R-mut-self", "fn run(mut self)", "fn run(self)"),), "stub_all": True, "only": ["struct Handler", "impl Handler<KV>::fn run"]}),
-        ("repo", "src/net/server.rs", {"mod": "server", "rules": (R_SLOT_GHOST, R_SLOT_NEW, R_SLOT_NEW_SIG, R_SLOT_ADDR), "header_rules": (R_DROP_IMPL,),
+        ("repo", "src/net/server.rs", {"mod": "server", "rules": (R_SLOT_GHOST, R_SLOT_NEW, R_SLOT_NEW_SIG, R_SLOT_ADDR, make_seq_rule("R-mut-self", "fn run(mut self)", "fn run(self)")), "header_rules": (R_DROP_IMPL,),
                                        "outline": {"impl Listener<KV>::fn listen": {"name": "verif_conn_task", "args": "handler", "params": "handler: Handler<KV>"}},
-                                       "only": ["struct Server", "impl Server<KV,S>::fn new", "struct Listener", "impl Listener<KV>::fn accept", "impl Listener<KV>::fn listen", "impl Listener<KV>::fn verif_conn_task",
+                                       "only": ["struct Server", "impl Server<KV,S>::fn new", "impl Server<KV,S>::fn run", "struct Listener", "impl Listener<KV>::fn accept", "impl Listener<KV>::fn listen", "impl Listener<KV>::fn verif_conn_task",
                                                 "impl Drop for Handler<KV>::fn drop"]}),
     ],
-    "mod_uses": {"error": "", "shutdown": "", "config": "", "server": "use std::sync::Arc;\nuse super::shutdown::Shutdown;"},
+    "mod_uses": {"error": "", "shutdown": "", "config": "", "server": "use std::sync::Arc;\nuse std::future::Future;\nuse super::shutdown::Shutdown;"},
     "root_uses": "pub use error::Error;\npub use config::Config;\n",
     "extern": [],
 }
